@@ -46,7 +46,7 @@ COMPONENTS = {
     "stub": ["file system (SimFS image + per-path fault plan)", "the consumer in reader-level "
              "walks"],
 }
-PROBES = ["same_file_included_twice", "only_in_cwd_off_path", "pushback_while_include_reader_active", "include_exhausted_with_items_pushed_back",
+PROBES = ["unresolved_mixed_with_resolved", "same_file_included_twice", "only_in_cwd_off_path", "pushback_while_include_reader_active", "include_exhausted_with_items_pushed_back",
           "nested_depth_2", "shadowing_decoy_present", "include_first_line_of_main",
           "include_last_line_of_main", "fragment_starts_with_label", "fragment_starts_with_c",
           "unresolved_include_checked", "resolved_include_compared", "directory_named_like_file",
@@ -144,6 +144,18 @@ def generate(run_seed, cfg):
         first = (n // 2, n // 2)
         absent_mode = False
     runs.append((first[0], first[1], None))
+    if absent_mode and sw.random() < 0.45:
+        # an unresolved INCLUDE mixed with a resolved one: a second, resolvable run directly
+        # after the absent one, or anywhere else outside it
+        if first[1] + 1 <= n - 1 and sw.random() < 0.6:
+            j2 = min(n - 1, first[1] + 1 + sw.choice([0, 0, 1, 3]))
+            runs.append((first[1] + 1, j2, None))
+        else:
+            for _ in range(20):
+                other = pick_run(0, n - 1, False)
+                if other and (other[1] < first[0] or other[0] > first[1]):
+                    runs.append((other[0], other[1], None))
+                    break
     if not absent_mode:
         if first[1] - first[0] >= 2 and sw.random() < 0.5:
             inner = pick_run(first[0], first[1], False)
@@ -344,13 +356,12 @@ def execute(case):
     std = case["std"]
     lines = case["lines"]
     runs = case["runs"]
-    inlined = "\n".join(lines) + "\n"
+    inl_lines = list(lines)
     if case.get("bad_utf8"):
         # the decoded fragment carries an extra comment line after its last line
         k = case["names"].index(case["bad_utf8"])
-        ll = list(lines)
-        ll[runs[k][1]] = ll[runs[k][1]] + "\n ! caf"
-        inlined = "\n".join(ll) + "\n"
+        inl_lines[runs[k][1]] = inl_lines[runs[k][1]] + "\n ! caf"
+    inlined = "\n".join(inl_lines) + "\n"
     # ---- references first (pristine)
     ref_full = ref.outcome(std, "string", inlined, opts, want=["stmts"])
     absent = case["absent"]
@@ -358,7 +369,7 @@ def execute(case):
     if absent:
         k = case["names"].index(absent[0])
         i, j = runs[k][0], runs[k][1]
-        minus = "\n".join(lines[:i] + lines[j + 1:]) + "\n"
+        minus = "\n".join(inl_lines[:i] + inl_lines[j + 1:]) + "\n"
         if minus.strip():  # a source consisting of the INCLUDE line only is not judged
             ref_minus = ref.outcome(std, "string", minus, opts, want=["stmts"])
     from fparser.common import sourceinfo
@@ -414,6 +425,8 @@ def execute(case):
                 probe("include_last_line_of_main")
         if len(set(case["names"])) < len(case["names"]):
             probe("same_file_included_twice")
+        if case["absent"] and len(case["names"]) > 1:
+            probe("unresolved_mixed_with_resolved")
         for nm, how in case["fault"].items():
             if how == "decoy":
                 probe("shadowing_decoy_present")
@@ -492,7 +505,9 @@ def execute(case):
                     inc_line_no = 1 + next(i for i, ln in enumerate(main_text.split("\n"))
                                            if absent[0] in ln)
                     span = getattr(getattr(node, "item", None), "span", None)
-                    order_ok = _walk_order_consistent(tree)
+                    # (with further, resolved includes the spans of their items are relative to
+                    # other files, so the monotone-span check only applies without them)
+                    order_ok = len(case["names"]) > 1 or _walk_order_consistent(tree)
                     if span is None or span[0] != inc_line_no or not order_ok:
                         violate("C13.c include-stmt-at-wrong-position", "inside:%s" % enclosing,
                                 {"span": span, "line": inc_line_no, "order_ok": order_ok})
